@@ -17,6 +17,9 @@ oracle      scenario family (1..3 edited files x 0..2 renames incl. a file insid
             signals are honoured once the prompt is answered).
             Apply phase after the prompt: `rename` without -y on a pty, answered "y", SIGINT / SIGTERM raised by the shim
             immediately before each mutating call that follows the prompt (the guard must be gone by then).
+            Full pipe: every mutating command with stderr (and, separately, stdout) connected to a pipe that is full; SIGTERM /
+            SIGINT delivered while the process is blocked in the write; then the pipe is drained.  (The SIGTERM handler runs in
+            signal context inside that write: anything but an atomic store there aborted the process, status -6.)
             Failing command: apply of a stale plan (fails by itself after editing the first file) + signal must report
             the failure status and the Error line, exactly as without the signal.
             The three repaired defects (lock left at the prompt exit, 130 over a failed command) are VIOLATIONs if
@@ -470,6 +473,110 @@ def prompt_apply_cases(ctx, tree, S, R, quick, rng):
 
 
 # ------------------------------------------------------------------------------------------------
+# a signal that arrives while the process is blocked in a write to a full stdout / stderr pipe
+
+def _blocked_in_write(pid, fdnum):
+    """the main thread of `pid` sits in write(2) on descriptor fdnum (x86-64: syscall 1), or — where /proc/<pid>/syscall is
+    not readable — sleeps in the kernel's pipe write path"""
+    try:
+        with open(f"/proc/{pid}/syscall") as fh:
+            f = fh.read().split()
+        if f and f[0] == "1" and len(f) > 1:
+            return int(f[1], 16) == fdnum
+        if f and f[0] not in ("running", "-1"):
+            return False
+    except (OSError, ValueError):
+        pass
+    try:
+        with open(f"/proc/{pid}/wchan") as fh:
+            return fh.read().strip() in ("pipe_write", "pipe_wait")
+    except OSError:
+        return False
+
+
+def full_pipe_run(args, d, stream, signo, timeout=20):
+    """run `renamify args` with `stream` ("stdout" | "stderr") connected to a pipe that is already full; as soon as the
+    process is blocked in a write to it deliver `signo`, then drain the pipe.  Returns (blocked, rc, drained text)"""
+    import fcntl
+    r, w = os.pipe()
+    fl = fcntl.fcntl(w, fcntl.F_GETFL)
+    fcntl.fcntl(w, fcntl.F_SETFL, fl | os.O_NONBLOCK)
+    try:
+        while True:
+            os.write(w, b"x" * 4096)
+    except BlockingIOError:
+        pass
+    fcntl.fcntl(w, fcntl.F_SETFL, fl)
+    e = dict(common.BASE_ENV)
+    e["HOME"] = d
+    e["XDG_CONFIG_HOME"] = os.path.join(d, ".xdg-none")
+    p = subprocess.Popen([common.CLI_BIN] + list(args), cwd=d, env=e, stdin=subprocess.DEVNULL,
+                         stdout=w if stream == "stdout" else subprocess.DEVNULL,
+                         stderr=w if stream == "stderr" else subprocess.DEVNULL)
+    os.close(w)
+    fdnum = 1 if stream == "stdout" else 2
+    blocked = False
+    t0 = time.time()
+    while time.time() - t0 < timeout and p.poll() is None:
+        if _blocked_in_write(p.pid, fdnum):
+            time.sleep(0.01)
+            if p.poll() is None and _blocked_in_write(p.pid, fdnum):
+                blocked = True
+                break
+        time.sleep(0.003)
+    if blocked:
+        os.kill(p.pid, signo)
+        time.sleep(0.15)           # the handler (or ctrlc's thread) runs while the write is still blocked
+    os.set_blocking(r, False)
+    data = b""
+    t0 = time.time()
+    while p.poll() is None and time.time() - t0 < timeout:
+        try:
+            chunk = os.read(r, 65536)
+            if chunk:
+                data += chunk
+                continue
+        except BlockingIOError:
+            pass
+        time.sleep(0.005)
+    if p.poll() is None:
+        p.kill()
+        p.wait()
+        rc = shim.TIMEOUT_RC
+    else:
+        rc = p.returncode
+    try:
+        while True:
+            chunk = os.read(r, 1 << 16)
+            if not chunk:
+                break
+            data += chunk
+    except (BlockingIOError, OSError):
+        pass
+    os.close(r)
+    return blocked, rc, data.replace(b"x" * 64, b"").lstrip(b"x").decode("utf-8", "replace")[-300:]
+
+
+def full_pipe_job(job):
+    """all (stream, signal) combinations for one scenario; returns list of (stream, signal name, observation)"""
+    out = []
+    with common.scratch() as d:
+        job.setup(d)
+        if job.problem:
+            return out
+        args = [a for a in job.args if a != "--quiet"]
+        for stream in ("stderr", "stdout"):
+            for name, signo in (("TERM", pysignal.SIGTERM), ("INT", pysignal.SIGINT)):
+                restore(d, job.full)
+                blocked, rc, text = full_pipe_run(args, d, stream, signo)
+                tree = common.snapshot(d)
+                out.append((stream, name, {"blocked": blocked, "rc": rc, "lock": lock_left(d), "hist": history_len(d) - job.hist0,
+                                           "state": "complete" if tree == job.complete else "unchanged" if tree == job.before else "partial",
+                                           "output_tail": text, "args": args}))
+    return out
+
+
+# ------------------------------------------------------------------------------------------------
 # a command that fails by itself, plus a signal
 
 def stale_case(sig, rep, k):
@@ -671,6 +778,49 @@ def run(ctx):
                 break
         ctx.sample({"op": "prompt-apply", "request": areqs[0], "model": model[0]})
 
+    # ---- signal while blocked in a write to a full stdout / stderr pipe --------------------------------------
+    pjobs = []
+    for cmd in COMMANDS:
+        for nf, nr in ([(2, 1)] if quick else [(2, 1), (3, 2)]):
+            sw, rw = gen.pick_terms(rng, 2, 2)
+            pjobs.append(Job(cmd, nf, nr, sw, rw))
+    with concurrent.futures.ThreadPoolExecutor(max_workers=5) as ex:
+        presults = list(ex.map(full_pipe_job, pjobs))
+    for job, res in zip(pjobs, presults):
+        if job.problem:
+            ctx.count("job_skipped")
+            ctx.notes.append(f"full-pipe {job.cmd}: {job.problem}")
+            continue
+        for stream, sig, o in res:
+            ctx.case(("full-pipe", job.cmd, job.nf, job.nr, job.S, stream, sig))
+            ctx.count(f"full_pipe:{stream}:{'blocked' if o['blocked'] else 'never_writes'}")
+            case = {**job.describe(), "op": "full-pipe", "args": o["args"], "stream": stream, "signal": sig,
+                    "how": f"{stream} is a pipe filled to capacity; SIG{sig} is sent once the process is blocked in write({1 if stream == 'stdout' else 2}, ..); then the pipe is drained"}
+            want_rc = 130 if o["blocked"] else 0
+            if (o["rc"] != want_rc or o["state"] == "partial" or o["lock"] or (o["hist"] == 1) != (o["state"] == "complete")
+                    or (not o["blocked"] and o["state"] != "complete")):
+                note = None
+                if o["rc"] == -6:
+                    note = ("SIGABRT: a handler that runs in signal context did something that is not async-signal-safe "
+                            "(the defect repaired by 4ef3457: eprintln! in the SIGTERM handler while stderr is borrowed)")
+                ctx.violation("fault", case, expected=f"status {want_rc}, tree in {{before, complete}}, history entry iff complete, lock released",
+                              observed=o, note=note, model_prediction="C13.signal_context_handlers_async_signal_safe: the handler only stores the flag")
+                return
+
+    # the hidden lock holder `test-lock` prints to stderr while it holds the lock (where the abort was first seen)
+    for sig, signo in (("TERM", pysignal.SIGTERM), ("INT", pysignal.SIGINT)):
+        with common.scratch() as d:
+            blocked, rc, text = full_pipe_run(["test-lock", "--delay", "300", "--no-auto-init"], d, "stderr", signo)
+            o = {"blocked": blocked, "rc": rc, "lock": lock_left(d), "output_tail": text}
+        ctx.case(("full-pipe", "test-lock", sig))
+        ctx.count(f"full_pipe:test-lock:{'blocked' if blocked else 'never_writes'}")
+        if not blocked or rc != 130 or o["lock"]:
+            ctx.violation("fault", {"op": "full-pipe-test-lock", "args": ["test-lock", "--delay", "300", "--no-auto-init"], "stream": "stderr",
+                                    "signal": sig, "how": "stderr is a full pipe; the signal is sent while the process is blocked in its first eprintln"},
+                          expected="status 130, lock released", observed=o,
+                          note="status -6 = abort from a handler that is not async-signal-safe (repaired by 4ef3457)" if rc == -6 else None)
+            return
+
     # ---- a command that fails by itself and is signalled ----------------------------------------------
     sreqs, sexp = [], []
     for sig, rep, k in ([("TERM", 1, 2), ("INT", 3, 2)] if quick else [("TERM", 1, 0), ("TERM", 3, 2), ("INT", 3, 0), ("INT", 3, 2), ("TERM", 1, 5)]):
@@ -745,6 +895,21 @@ def replay(ctx, path):
         if (not seen or r["state"] == "partial" or r["lock"] or (r["hist"] == 1) != (r["state"] == "complete")
                 or not (rc == 130 or (rc == 0 and case["signal"] == "INT" and r["state"] == "complete"))):
             ctx.violation("fault", case, expected="all or nothing, lock released, status 130", observed=r)
+    elif op == "full-pipe":
+        job = Job(case["command"], case["edited_files"], case["renames"], case["search"].split("_"), case["replace"].split("_"))
+        res = [x for x in full_pipe_job(job) if x[0] == case["stream"] and x[1] == case["signal"]]
+        for stream, sig, o in res:
+            print(json.dumps(o, indent=1, default=str))
+            want_rc = 130 if o["blocked"] else 0
+            if o["rc"] != want_rc or o["state"] == "partial" or o["lock"] or (o["hist"] == 1) != (o["state"] == "complete"):
+                ctx.violation("fault", case, expected=obj.get("expected"), observed=o)
+    elif op == "full-pipe-test-lock":
+        with common.scratch() as d:
+            blocked, rc, text = full_pipe_run(case["args"], d, "stderr", {"TERM": pysignal.SIGTERM, "INT": pysignal.SIGINT}[case["signal"]])
+            o = {"blocked": blocked, "rc": rc, "lock": lock_left(d), "output_tail": text}
+        print(json.dumps(o, indent=1))
+        if not blocked or rc != 130 or o["lock"]:
+            ctx.violation("fault", case, expected="status 130, lock released", observed=o)
     elif op == "stale-plan apply":
         m = re.search(r"SIG(\w+) x(\d+) before mutating call (\d+)", case["steps"][-1])
         s = stale_case(m.group(1), int(m.group(2)), int(m.group(3)))
